@@ -89,7 +89,8 @@ def run(chk):
         uses = []
         for n in own_nodes(fi.node):
             if isinstance(n, ast.Call) and isinstance(n.func, ast.Attribute) and n.func.attr == 'get' and \
-                    norm(n.func.value) in ('self.structure_by_name', 'self.structure_by_longname') and n.args and norm(n.args[0]) == p:
+                    norm(n.func.value) in ('self.structure_by_name', 'self.structure_by_longname') and n.args and \
+                    p in {x.id for x in ast.walk(n.args[0]) if isinstance(x, ast.Name)}:
                 uses.append(n)
             if isinstance(n, ast.Compare) and norm(n.left) == p and fq.endswith('is_named'):
                 uses.append(n)
@@ -111,6 +112,36 @@ def run(chk):
     ei = ix.func('core.Element.__init__')
     ok = any(norm(n).startswith('self.name = name.upper()') for n in own_nodes(ei.node) if isinstance(n, ast.Assign))
     chk.ob('C14-F', 'elements store their name upper-cased', ok, '', ei.loc, key='C14-F|element-name')
+
+    # ---- K: writer and readers of the by-name / by-long-name maps transform their keys identically
+    chk.rule('C14-K', 'the keys under which _parse_structure files a child (by name, by long name) are transformed exactly like the '
+                      'keys every find_child_reference looks up (sibling agreement of one writer and its readers)')
+
+    def wrappers(expr):
+        return tuple(sorted(norm(x.func) for x in ast.walk(expr) if isinstance(x, ast.Call) and
+                            not (isinstance(x.func, ast.Attribute) and x.func.attr in ('upper', 'get'))))
+    ps_ = ix.func('core.ElementFinder._parse_structure')
+    wkeys = {}
+    for n in own_nodes(ps_.node):
+        if isinstance(n, ast.Assign) and isinstance(n.targets[0], ast.Subscript):
+            tname = norm(n.targets[0].value)
+            if tname in ('structure', 'structure_by_longname'):
+                wkeys['self.structure_by_name' if tname == 'structure' else 'self.structure_by_longname'] = wrappers(n.targets[0].slice)
+    if len(wkeys) < 2:
+        raise AnalysisError('_parse_structure: the stores into the by-name / by-long-name maps were not recognised')
+    nk = 0
+    for fn in te.funcs:
+        for n in own_nodes(fn.node):
+            if isinstance(n, ast.Call) and isinstance(n.func, ast.Attribute) and n.func.attr == 'get' and \
+                    norm(n.func.value) in wkeys and n.args:
+                nk += 1
+                rw = wrappers(n.args[0])
+                ok = rw == wkeys[norm(n.func.value)]
+                chk.ob('C14-K', '%s looks up %s with the writer\'s key transformation' % (fn.qualname, norm(n.func.value)[5:]), ok,
+                       'the map is filled with keys transformed by %s but this lookup uses %s: some names can no longer be found here' % (
+                           list(wkeys[norm(n.func.value)]) or 'nothing', list(rw) or 'nothing'),
+                       '%s:%d' % (fn.module.relpath, n.lineno), key='C14-K|%s|%s' % (fn.qualname, norm(n.func.value)[5:]))
+    chk.floor('lookups in the structure maps', nk, 8)
 
     # ---- N
     for fq in FCR:
